@@ -156,14 +156,24 @@ let catchup_seen = ref false
 let fails : string list ref = ref []
 let n_checks = ref 0
 
-(* largest reply produced since the current marked handshake / fair round / case began (for the
-   class of known finding KF-2: an offer that is actually cut by the datagram limit) *)
-let max_reply_hs = ref 0
-let max_reply_round = ref 0
-let max_reply_case = ref 0
+(* did a reply produced since the current marked handshake / fair round / case began come so close
+   to the datagram limit that the replier's largest single item (a member header, a key-value) could
+   not have been added?  (for the class of known finding KF-2: an offer the datagram limit CUTS) *)
+let cut_hs = ref false
+let cut_round = ref false
+let cut_case = ref false
+
+(* length of a value as stored in a snapshot: long values are kept as "~<len>.<hash>" *)
+let val_len (v : bytes) : int =
+  let s = string_of_bytes v in
+  if String.length s > 2 && s.[0] = '~' then
+    (match String.index_opt s '.' with
+     | Some j -> (try int_of_string (String.sub s 1 (j - 1)) with _ -> String.length s)
+     | None -> String.length s)
+  else String.length s
 
 let reset_case () =
-  max_reply_hs := 0; max_reply_round := 0; max_reply_case := 0;
+  cut_hs := false; cut_round := false; cut_case := false;
   Hashtbl.reset infos; Hashtbl.reset snaps; Hashtbl.reset ledgers; Hashtbl.reset owner_hb;
   Hashtbl.reset fresh;
   next_catchup_honest := false; next_catchup_source := None; Hashtbl.reset dead_since; Hashtbl.reset fresh_times; Hashtbl.reset caught_up; Hashtbl.reset usable; Hashtbl.reset seen_max; Hashtbl.reset last_rb; Hashtbl.reset usable_strict; now := BZ.zero; Hashtbl.reset tainted; Hashtbl.reset tainted_nds; Hashtbl.reset removed_by_eval;
@@ -397,9 +407,16 @@ let on_proc (idx : int) (msg : message) (obs : string) : unit =
       (* C07: size and shape of the reply *)
       (match o.reply with
        | Some r ->
-           max_reply_hs := max !max_reply_hs o.reply_bytes;
-           max_reply_round := max !max_reply_round o.reply_bytes;
-           max_reply_case := max !max_reply_case o.reply_bytes;
+           (let largest =
+              List.fold_left
+                (fun acc (i, c) ->
+                  List.fold_left
+                    (fun acc (k, v) -> max acc (List.length k + val_len v.v_val + 40))
+                    (max acc (List.length i.i_name + 64)) c.c_kvs)
+                0 o.snap.nodes in
+            if o.reply_bytes + largest >= int_of_n p_MAX_UDP then begin
+              cut_hs := true; cut_round := true; cut_case := true
+            end);
            check "C07" (o.reply_bytes <= int_of_n p_MAX_UDP)
              (Printf.sprintf "reply of %d bytes exceeds the datagram limit" o.reply_bytes);
            (match r with
@@ -823,23 +840,22 @@ let hs_deliverable = ref false
 (* known finding KF-2 (wasted offer): a member is quarantined or removed at the receiver but not at
    the sender; the sender spends its datagram on that member, the receiver discards it, and other
    news waits.  The finding is about an offer the datagram limit actually CUTS: a failure is put in
-   that class only when some node quarantines or remembers a member AND a reply of the failing
-   handshake / round / case came within 8 kB of the limit.  Without such a reply every stale member
-   fits in the reply, the discarded one costs nothing, and a handshake that advances nobody is a
-   different defect. *)
-let near_limit (bytes : int) : bool = bytes >= int_of_n p_MAX_UDP - 8192
-let kf2_class (largest : int) = if any_quarantine () && near_limit largest then Some "KF-2" else None
+   that class only when some node quarantines or remembers a member AND some reply of the failing
+   handshake / round / case was so large that the replier's largest single item would not have
+   fitted any more.  When everything fits, the discarded member costs nothing, and a handshake that
+   advances nobody is a different defect. *)
+let kf2_class (cut : bool) = if any_quarantine () && cut then Some "KF-2" else None
 
 let on_round (r : int) : unit =
   if r > 0 && not !round_converged_before then
-    check "C01" ?cls:(kf2_class !max_reply_round) (progressed !round_base (frontier_table ()) ~only:None)
+    check "C01" ?cls:(kf2_class !cut_round) (progressed !round_base (frontier_table ()) ~only:None)
       (Printf.sprintf "fair round %d of complete handshakes advanced no copy although the world had not converged" r);
-  max_reply_round := 0;
+  cut_round := false;
   round_base := frontier_table ();
   round_converged_before := converged ()
 
 let on_rounds_end (rounds : int) : unit =
-  check "C01" ?cls:(kf2_class !max_reply_case) (converged ())
+  check "C01" ?cls:(kf2_class !cut_case) (converged ())
     (Printf.sprintf "not converged after %d fair rounds of loss-free complete handshakes" rounds)
 
 (* deliverable from [s] (sender) to [r] (receiver): a member s does not quarantine, ahead of r's
@@ -853,7 +869,7 @@ let deliverable (s : snap) (r : snap) : bool =
     s.nodes
 
 let on_hs_begin (a : int) (b : int) : unit =
-  max_reply_hs := 0;
+  cut_hs := false;
   hs_base := frontier_table ();
   hs_deliverable :=
     (match Hashtbl.find_opt snaps a, Hashtbl.find_opt snaps b with
@@ -862,7 +878,7 @@ let on_hs_begin (a : int) (b : int) : unit =
 
 let on_hs_end (a : int) (b : int) : unit =
   if !hs_deliverable then
-    check "C01" ?cls:(kf2_class !max_reply_hs) (progressed !hs_base (frontier_table ()) ~only:(Some [a; b]))
+    check "C01" ?cls:(kf2_class !cut_hs) (progressed !hs_base (frontier_table ()) ~only:(Some [a; b]))
       (Printf.sprintf "complete handshake %d<->%d with deliverable data advanced no copy at either node" a b)
 
 
